@@ -366,9 +366,60 @@ pub fn coherence_part(opts: &Opts, rep: &mut Report) {
     }
 }
 
+/// every ordered pair of ASCII characters, the first one sitting in a haystack that is held as code points, the second one
+/// being the needle: each site must accept exactly when the haystack character normalizes to the needle character
+fn ascii_pair_sweep(opts: &Opts, rep: &mut Report) {
+    let props = Props::parse("C01,C05");
+    let mut matcher = crate::m_match::initial_matcher(opts.seed, opts.shard, 3);
+    let mut rng = Rng::new(mix(&[opts.seed, opts.shard, 1616]));
+    for ci in 0..4usize {
+        let cfg = RCfg {
+            ignore_case: ci & 1 != 0,
+            normalize: ci & 2 != 0,
+            bonus: BonusCfg::Default,
+            prefer_prefix: false,
+        };
+        for a in 0u8..128 {
+            for b in 0u8..128 {
+                let (ca, cb) = (a as char, b as char);
+                if a == b || ref_norm(cb, &cfg) != cb || a == 0x0b || b == 0x0b {
+                    continue;
+                }
+                // only the pairs that are close in some bit pattern sense are run through all entry points, the others
+                // through a sample
+                let close = (a ^ b).count_ones() <= 1 || a.abs_diff(b) <= 1 || a.abs_diff(b) == 32 || a.abs_diff(b) == 31 || a.abs_diff(b) == 33;
+                if !close && (a as usize * 131 + b as usize * 7 + opts.seed as usize) % 23 != 0 {
+                    continue;
+                }
+                for hay in [vec!['\u{3bb}', ca, 'x'], vec![ca, '\u{3bb}', 'x'], vec!['x', '\u{3bb}', ca]] {
+                    let case = Case {
+                        hay: Text::new(hay),
+                        needle: Text::new(if rng.coin() { vec![cb] } else { vec![cb, 'x'] }),
+                        cfg,
+                        profile: "ascii-pair",
+                    };
+                    rep.count("c16.ascii-pair-probes");
+                    let mut ev = Eval {
+                        rep,
+                        props: &props,
+                        matcher: &mut matcher,
+                        case_id: format!("pair {a:#04x}/{b:#04x}"),
+                        believed: None,
+                        attribute_to: Some("C16"),
+                    };
+                    eval_case(&mut ev, &mut rng, &case, false, true);
+                }
+            }
+        }
+    }
+}
+
 pub fn run(opts: &Opts, rep: &mut Report) {
     if opts.shard == 0 && opts.replay.is_none() {
         table_part(opts, rep);
+    }
+    if opts.shard == 1 % opts.shards.max(1) && opts.replay.is_none() {
+        ascii_pair_sweep(opts, rep);
     }
     coherence_part(opts, rep);
 }
